@@ -6,12 +6,18 @@ use super::ast::*;
 use super::lexer::{Lexer, Token, TokenKind};
 use grafeo_common::utils::error::{Error, Result};
 
+/// Maximum nesting depth (parentheses, lists, maps, NOT, unary minus, sub-patterns, ...) the
+/// parser accepts.
+const MAX_NESTING_DEPTH: usize = 128;
+
 /// GraphQL parser.
 pub struct Parser<'a> {
     tokens: Vec<Token>,
     position: usize,
     #[allow(dead_code)]
     source: &'a str,
+    /// Current nesting depth, see [`MAX_NESTING_DEPTH`].
+    depth: usize,
 }
 
 impl<'a> Parser<'a> {
@@ -23,6 +29,7 @@ impl<'a> Parser<'a> {
             tokens,
             position: 0,
             source,
+            depth: 0,
         }
     }
 
@@ -180,6 +187,10 @@ impl<'a> Parser<'a> {
     }
 
     fn parse_type(&mut self) -> Result<Type> {
+        self.nested(Self::parse_type_inner)
+    }
+
+    fn parse_type_inner(&mut self) -> Result<Type> {
         let base_type = if self.check(TokenKind::LBracket) {
             self.advance();
             let inner = self.parse_type()?;
@@ -199,6 +210,10 @@ impl<'a> Parser<'a> {
     }
 
     fn parse_selection_set(&mut self) -> Result<SelectionSet> {
+        self.nested(Self::parse_selection_set_inner)
+    }
+
+    fn parse_selection_set_inner(&mut self) -> Result<SelectionSet> {
         self.expect(TokenKind::LBrace)?;
 
         let mut selections = Vec::new();
@@ -333,6 +348,10 @@ impl<'a> Parser<'a> {
     }
 
     fn parse_input_value(&mut self) -> Result<InputValue> {
+        self.nested(Self::parse_input_value_inner)
+    }
+
+    fn parse_input_value_inner(&mut self) -> Result<InputValue> {
         let token = self.advance_token()?;
         match token.kind {
             TokenKind::Dollar => {
@@ -417,6 +436,19 @@ impl<'a> Parser<'a> {
         } else {
             Err(self.error(&format!("Expected {:?}, found {:?}", kind, token.kind)))
         }
+    }
+
+    /// Runs `f` one nesting level deeper.  Input nested more than [`MAX_NESTING_DEPTH`] levels is
+    /// rejected with a syntax error: the parser is a recursive descent and would otherwise
+    /// overflow the stack (which aborts the process) on a few KB of `((((...`.
+    fn nested<T>(&mut self, f: impl FnOnce(&mut Self) -> Result<T>) -> Result<T> {
+        if self.depth >= MAX_NESTING_DEPTH {
+            return Err(self.error("query is nested too deeply"));
+        }
+        self.depth += 1;
+        let result = f(self);
+        self.depth -= 1;
+        result
     }
 
     fn error(&self, message: &str) -> Error {
